@@ -83,8 +83,29 @@ SAME_VALUE_LEAVES = [("DateTime", "2020-02-29T10:30:00+00:00"), ("DateTime", "20
                      ("Boolean", "TRUE"), ("Boolean", "True"), ("GUID", "123E4567-E89B-12D3-A456-426614174000"), ("Time", "10:30:00.0"), ("Date", "2019-02-31"), ("String", "S")]
 
 
+# trees that differ ONLY in a qualifier (identifier, function, parameter, lambda variable, path root) and strings whose VALUE contains
+# quotes (one, two adjacent, only quotes): rebuilding a node must not re-interpret its value
+QUALIFIER_LEAVES = [T.I("a", ("ns",)), T.I("a", ("m",)), T.I("a", ("ns", "m")), T.I("a", ("m", "ns")), T.I("b"), T.I("b", ("ns", "ns"))]
+_Q = chr(39)
+QUOTE_STRINGS = [T.Str("a" + _Q * 2 + "b"), T.Str(_Q * 2), T.Str("it" + _Q * 2 + "s"), T.Str(_Q), T.Str("a" + _Q + "b"), T.Str(_Q * 4), T.Str(_Q * 3), T.Str("")]
+
+
+def qualifier_trees():
+    out = list(QUALIFIER_LEAVES) + list(QUOTE_STRINGS)
+    for q in (("()",), ("()", "geo"), ("()", "ns"), ("()", "ns", "geo")):
+        out.append(("Call", ("Identifier", "length", q), ("[]", a)))
+        out.append(("NamedParam", ("Identifier", "p", q), one))
+        out.append(("CollectionLambda", T.I("xs"), ("Any",), ("Lambda", ("Identifier", "v", q), ("Compare", ("Eq",), ("Attribute", ("Identifier", "v", q), "p"), one))))
+        out.append(("Attribute", ("Identifier", "a", q), "attr"))
+        out.append(("Compare", ("In",), ("Identifier", "a", q), ("List", ("[]", ("Identifier", "a", q), a))))
+    for st in QUOTE_STRINGS:
+        out += [("Compare", ("Eq",), a, st), ("Call", T.I("concat"), ("[]", st, st)), ("List", ("[]", st, one)), ("NamedParam", T.I("p"), st),
+                ("CollectionLambda", T.I("xs"), ("All",), ("Lambda", T.I("v"), ("Compare", ("Eq",), ("Attribute", T.I("v"), "p"), st)))]
+    return out
+
+
 def all_trees(full):
-    level1 = composites(LEAF_NODES) + named_builtin_trees() + SAME_VALUE_LEAVES + [("Compare", ("Eq",), a, l) for l in SAME_VALUE_LEAVES]
+    level1 = composites(LEAF_NODES) + named_builtin_trees() + SAME_VALUE_LEAVES + [("Compare", ("Eq",), a, l) for l in SAME_VALUE_LEAVES] + qualifier_trees()
     inner = composites(DEFAULT)
     level2 = composites(inner if full else inner[::3])
     seen, out = set(), []
@@ -172,7 +193,9 @@ def check_tree(acc, t):
     node = encode(t)
     dump0 = decode(node)
     if dump0 != t:
-        raise RuntimeError("encode/decode not inverse for %r" % (t,))
+        # building the nodes from their field values (what NodeTransformer does for every node) must give a tree with those values
+        acc.violation("constructor-changed-fields:" + t[0], {"tree": t, "observed": dump0, "check": "construct"})
+        return
     # (a) traversal
     rec = Recorder()
     rec.visit(node)
@@ -385,7 +408,7 @@ def run(ctx):
               note="every shipped visitor, then every base-class operation, on one tree object; compared with the operation on a fresh copy")
     sub = trees if not ctx.quick else trees[::2]
     if ctx.quick:       # the literal spellings (and their comparisons) are always part of the pairs
-        must = LEAF_NODES + SAME_VALUE_LEAVES + [("Compare", ("Eq",), a, l) for l in SAME_VALUE_LEAVES + LEAF_NODES[2:]]
+        must = LEAF_NODES + SAME_VALUE_LEAVES + [("Compare", ("Eq",), a, l) for l in SAME_VALUE_LEAVES + LEAF_NODES[2:]] + qualifier_trees()
         sub = sub + [t for t in must if t not in set(sub)]
     _TREES = sub
     _NODES = [encode(t) for t in sub]
